@@ -21,6 +21,10 @@ func zzCloseArg(kind int) error {
 		return fmt.Errorf("wrapped: %w", &zzNetErr{timeout: true})
 	case 5:
 		return &zzNetErr{timeout: false}
+	case 6:
+		return io.EOF // what a pipeline passes to Close when the peer disconnected
+	case 7:
+		return fmt.Errorf("read: %w", io.ErrUnexpectedEOF)
 	}
 	return nil
 }
